@@ -66,7 +66,7 @@ Qed.
 Lemma lr_bounded_rel r0 sz : sz < two64 ->
   rops_rel true (frame_rel r0 sz) (bounded_rops lr_ops) lr_ops.
 Proof.
-  intros Hs. split; cbn [bounded_rops lr_ops r_ensure r_read1 r_readn r_skip r_gethandle].
+  intros Hs. apply mk_rops_rel; cbn [bounded_rops lr_ops r_ensure r_read1 r_readn r_skip r_gethandle].
   - (* Ensure *)
     intros n b l H. pose proof (frame_len _ _ _ _ H) as Hl. pose proof H as (H1 & H2 & H3 & H4 & H5).
     rewrite H1, sub64_small by lia.
@@ -133,9 +133,9 @@ Lemma dec_frame t' sz r : sz < two64 ->
   rel_res true (frame_rel r sz) (dec t' (bounded_rops lr_ops) (b_make r sz))
           (dec t' lr_ops (firstn (tn sz) r)).
 Proof.
-  intros Hs. unfold dec. apply dec_with_sim.
+  intros Hs. unfold dec. apply dec_with_sim1.
   - apply lr_bounded_rel, Hs.
-  - intros p s1 s2 H. apply decp_sim; [apply lr_bounded_rel, Hs|exact H].
+  - intros p s1 s2 H. apply decp_sim1; [apply lr_bounded_rel, Hs|exact H].
   - apply frame_rel_init.
 Qed.
 
@@ -157,7 +157,7 @@ Proof.
   { rewrite app_assoc. replace (tn sz) with (length (body ++ pad)).
     - apply firstn_app_exact.
     - rewrite app_length. unfold nlen in Hlen. lia. }
-  rewrite E, Hd in F. unfold rel_res in F.
+  rewrite E, Hd in F. unfold rel_res, rel_resg in F.
   match type of F with match ?d with _ => _ end => destruct d as [v b|e b] eqn:Ed end;
     [|contradiction].
   destruct F as [-> F]. exists b. split; [exact Ed|].
